@@ -68,15 +68,14 @@ Definition spec_regex (md : mods) (h : hir) (mem : list N) (out : list (N * N)) 
 (* known finding "fullword, single length": under `fullword` the engine validates one length per
    start (the leftmost-first one) and drops the start when that length is not delimited, although
    another member length at the same start is.  Class: `fullword` and some offset of the input has
-   both a delimited and an undelimited member length. *)
+   both a delimited and an undelimited candidate (member length, read as plain or as wide text). *)
 Definition kf_fullword_other_length (md : mods) (h : hir) (mem : list N) : bool :=
   m_fullword md &&
   existsb (fun o =>
-    let amb (lens : list N) (mt : mtype) :=
-      existsb (fun l => check_fullword mem o (o + l) mt) lens
-      && existsb (fun l => negb (check_fullword mem o (o + l) mt)) lens in
-    (m_ascii md && amb (Lens (flags_of md) mem h o) MAscii)
-    || (m_wide md && amb (Lens (wide_flags_of md) mem h o) MWideStandard))
+    let cands :=
+      (if m_ascii md then map (fun l => check_fullword mem o (o + l) MAscii) (Lens (flags_of md) mem h o) else [])
+      ++ (if m_wide md then map (fun l => check_fullword mem o (o + l) MWideStandard) (Lens (wide_flags_of md) mem h o) else []) in
+    existsb (fun ok => ok) cands && existsb negb cands)
   (iota 0 (nlen mem)).
 
 Definition one_input_re (d : sdesc) (h : hir) (mem : list N) (out : list (N * N)) : bool * bool * N :=
